@@ -20,6 +20,9 @@ func init() { core.Register(c03{}) }
 
 func (c03) ID() string { return "C03" }
 
+// EvalFeatures names the counters of judged executions.
+func (c03) EvalFeatures() []string { return []string{"statements"} }
+
 func (c03) Cases(tier string) int {
 	if tier == "thorough" {
 		return 150000
